@@ -44,6 +44,11 @@ CHECKS = {
             dict(name="gate", run="TestC10Gate", checks=dict(quick=1000, thorough=20000), shards=dict(quick=1, thorough=16)),
             dict(name="stress", run="TestC10Stress", rapid=False, race=True,
                  args=dict(quick=["-c10.histories=200", "-c10.stall=20s"], thorough=["-c10.histories=3000"]), shards=dict(quick=1, thorough=8)),
+            dict(name="cbgate", run="TestC10Callback", checks=dict(quick=3000, thorough=20000), shards=dict(quick=1, thorough=8)),
+            dict(name="burst", run="TestC10Burst", checks=dict(quick=1500, thorough=10000), shards=dict(quick=1, thorough=8),
+                 args=dict(quick=["-c10.stall=20s"], thorough=[])),
+            dict(name="burst-race", run="TestC10Burst", race=True, checks=dict(quick=250, thorough=3000), shards=dict(quick=1, thorough=4),
+                 args=dict(quick=["-c10.burstname=burst-race", "-c10.stall=20s"], thorough=["-c10.burstname=burst-race"])),
         ],
     ),
     "C01": dict(
@@ -75,13 +80,14 @@ CHECKS = {
               "AND carries at least one hostile feature; distinct = distinct hash of the scenario"),
         assumptions=COMMON + [SYNCTEST_ASSUMPTION],
         parts=[
-            dict(name="ingest", run="TestC12Ingest", checks=dict(quick=8000, thorough=40000), shards=dict(quick=1, thorough=8)),
+            dict(name="ingest", run="TestC12Ingest", checks=dict(quick=4000, thorough=40000), shards=dict(quick=2, thorough=8)),
             dict(name="subscribe", run="TestC12Subscribe", checks=dict(quick=4000, thorough=20000), shards=dict(quick=1, thorough=8)),
             dict(name="client", run="TestC12Client", checks=dict(quick=8000, thorough=40000), shards=dict(quick=1, thorough=8)),
             dict(name="life", run="TestC12Life", checks=dict(quick=150, thorough=2000), shards=dict(quick=4, thorough=8)),
             dict(name="fuzz-notification", run="FuzzC12Notification", rapid=False, tiers=("thorough",), fuzz=dict(target="FuzzC12Notification", time=dict(thorough="60s")), timeout=dict(thorough=400)),
             dict(name="fuzz-subscribe-request", run="FuzzC12SubscribeRequest", rapid=False, tiers=("thorough",), fuzz=dict(target="FuzzC12SubscribeRequest", time=dict(thorough="45s")), timeout=dict(thorough=400)),
             dict(name="fuzz-subscribe-response", run="FuzzC12SubscribeResponse", rapid=False, tiers=("thorough",), fuzz=dict(target="FuzzC12SubscribeResponse", time=dict(thorough="60s")), timeout=dict(thorough=400)),
+            dict(name="fuzz-life", run="FuzzC12Life", rapid=False, tiers=("thorough",), fuzz=dict(target="FuzzC12Life", time=dict(thorough="60s")), timeout=dict(thorough=400)),
         ],
     ),
     "C13": dict(
@@ -227,7 +233,7 @@ CHECKS = {
         assumptions=COMMON + [SYNCTEST_ASSUMPTION,
                               "connections are idle grpc.NewClient(\"passthrough:///<addr>\") clients with insecure credentials: no network; closed is observed as connectivity.Shutdown",
                               "one dialer (DEFAULT) per manager plus an unregistered dialer name; dial functions return either a non-nil connection or a non-nil error",
-                              "every done func is called from one goroutine at a time (releases are separate steps); free-running races between Connection() and done() are serialised by "
+                              "in the stepwise parts every done func is called from one goroutine at a time (releases are separate steps; the stress, storm and convoy parts call one done func from several goroutines at once); in the stepwise parts races between Connection() and done() are serialised by "
                               "the manager's mutex and are explored only through the two gates"],
         parts=[
             dict(name="random", run="TestC16Random", checks=dict(quick=3000, thorough=30000), shards=dict(quick=1, thorough=16)),
@@ -376,7 +382,7 @@ CHECKS = {
         ],
         parts=[
             dict(name="random", run="TestC20Random", checks=dict(quick=10000, thorough=50000), shards=dict(quick=1, thorough=16)),
-            dict(name="shapes", run="TestC20Shapes", checks=dict(quick=1500, thorough=10000), shards=dict(quick=4, thorough=16)),
+            dict(name="shapes", run="TestC20Shapes", checks=dict(quick=1500, thorough=6000), shards=dict(quick=4, thorough=16)),
         ],
     ),
     "C19": dict(
@@ -444,15 +450,15 @@ CHECKS = {
                     "subscribe.addSubscription only as a generator of server-shaped registrations, the real one is exercised by the server part through "
                     "Server.Subscribe; a registration that outlives its RPC is unobservable through exported API (closed queue swallows the insert), so the server "
                     "part reads the unexported trie Server.m.tree by reflection, read-only, at quiescence; the state 'one of two handles for the same (client, path) "
-                    "removed' is a don't-care (the property is silent, the server never produces it); single-goroutine use of match.Match (no concurrency)"),
+                    "removed' is a don't-care (the property is silent, the server never produces it); the exhaustive, random and server parts use match.Match from one goroutine (concurrency is the in-flight part)"),
         rule=("exhaustive: cases are pairs (q, p) / triples (q1, q2, p) / (tree, query); non-trivial = the pair contains a glob on at least one side and both paths are "
               "non-empty (triples: two distinct registered paths both compatible; containment: a reported leaf reached through a glob or a shorter query); distinct = the pair "
               "(triple, tree+query). random/server: cases are operation sequences; non-trivial = some notification/update call sees >=1 compatible and >=1 incompatible "
               "live registration and a client with >=2 compatible registrations; distinct = distinct hash of the scenario"),
         assumptions=COMMON + [SYNCTEST_ASSUMPTION,
-                              "path elements and key values are non-empty strings over {a,b,*}; '*' as an element or key value is the wildcard on either side",
+                              "path elements, key values, origins and targets are strings over {a,b,*} or (half of the scenarios) short strings containing '/', ':', '[', ']', '=', ',', ' ', NUL, the empty string and concatenations of those; only the exact string '*' is the wildcard, on either side",
                               "SubscriptionLists obey the gNMI origin rules (origin in the prefix or in the paths, not both; no prefix elements with a path origin)",
-                              "server part: STREAM subscriptions on an empty cache with targets a,b; the target-delete notification (sole delete of '*' without origin, which closes single-target streams) is not generated"],
+                              "server part: STREAM subscriptions on an empty cache with targets a, b and every x+joiner+y over {a,b} (38 targets); the target-delete notification (sole delete of '*' without origin, which closes single-target streams) is not generated"],
         parts=[
             dict(name="exhaustive", run="TestC06Exhaustive", rapid=False),
             dict(name="random", run="TestC06Random", checks=dict(quick=20000, thorough=100000), shards=dict(quick=1, thorough=8)),
@@ -501,7 +507,7 @@ CHECKS = {
                     "one path encoding per notification; timestamps > 0; no metadata paths from the target (C12)"),
         rule=("cases are histories of 1-60 steps over 1-2 targets; non-trivial = the history contains an update at or below the stored timestamp of an existing leaf "
               "AND a delete that removed at least one leaf; distinct = distinct hash of the scenario"),
-        assumptions=COMMON + ["cache.Now is stubbed with a scenario-controlled clock", "single goroutine: every step is a quiescent point"],
+        assumptions=COMMON + ["cache.Now is stubbed with a scenario-controlled clock", "random part: single goroutine, every step is a quiescent point"],
         parts=[dict(name="random", run="TestC02Random", checks=dict(quick=2000, thorough=60000), shards=dict(quick=4, thorough=16)),
                # one target fed from 2-4 goroutines at once, each writing its own leaves (real scheduler, aligned starts): per-leaf discipline and the
                # target's latest accepted timestamp must come out as in any sequential order
@@ -572,7 +578,7 @@ CHECKS = {
               "random: 1-40 ops, depth<=4 over {a,b,c}, relative addressing, retained leaf handles). "
               "non-trivial = the sequence contains a failed Add, or a successful Add beneath a branch that an earlier delete pruned; "
               "distinct = distinct hash of the op sequence"),
-        assumptions=COMMON + ["stored values are non-nil ints (nil is the tree's 'empty' sentinel)", "Add/Get paths contain no '*' (documented precondition)"],
+        assumptions=COMMON + ["stored values are non-nil (nil is the tree's 'empty' sentinel): ints in the exhaustive and random parts, values of seven kinds in the rich part", "Add/Get paths contain no element equal to '*' (documented precondition)"],
         parts=[
             dict(name="exhaustive", run="TestC09Exhaustive", rapid=False),
             dict(name="random", run="TestC09Random", checks=dict(quick=6000, thorough=40000), shards=dict(quick=1, thorough=16)),
@@ -581,6 +587,127 @@ CHECKS = {
         ],
     ),
 }
+
+
+# ---- extensions made after the second round of independently seeded changes (DESIGN.md 10.6/10.7) -----------------
+# Text appended to the entries above: what the added parts and generator dimensions cover. (Kept separate so that
+# the original statements stay readable; MANIFEST.json and the evidence files carry the concatenation.)
+EXT = {
+    "C02": dict(
+        technique="; plus aligned-start parallel feeding of one target from several goroutines (real scheduler), schedule-independent oracle",
+        level_text=(" Part parallel: 2-4 goroutines feed ONE target at once, each writing its own 1-2 leaves with globally distinct timestamps (150-500 aligned-start rounds "
+                    "per case): every result must be what the per-leaf sequential discipline says, every leaf ends with its newest update, and the target's latest accepted "
+                    "timestamp (meta/latestTimestamp) is the greatest one submitted. Generators also draw bulk notifications of 3-130 sibling leaves, glob deletes re-addressed to "
+                    "stored leaves, and updates carrying the smallest change of the stored value."),
+        level_note="; two goroutines racing on ONE leaf are not generated (the cache does not serialise the stale check and the store for one leaf; outside the property's sequences, see DESIGN.md 10.3)",
+        rule=" parallel: cases are (goroutines x updates) workloads; non-trivial = 2+ goroutines",
+    ),
+    "C03": dict(
+        level_text=(" Generators also draw: bulk notifications of 3-130 sibling leaves and deletes (subtree or glob, re-addressed to stored leaves) that remove more than 32/64 leaves "
+                    "while newer matching leaves survive; updates that carry the smallest change of the value stored at the addressed leaf (next integer / next representable float / "
+                    "digits+1 / one more byte); decimal64, large integers beyond float precision, json_ietf and ascii values."),
+    ),
+    "C04": dict(
+        technique="; writers additionally parked inside the harness-owned change-feed callback",
+        level_text=(" Added dimensions: element names of which one is a string prefix of another or contains '/', sibling subscription paths, writer notifications of 5-130 sibling "
+                    "leaves, back-dated deletes and glob deletes over the siblings of a stored leaf (large deletes with newer survivors), writers parked inside the change-feed "
+                    "callback after its k-th entry was forwarded (Reset between two of its per-root announcements; a multi-update notification between two of its leaves) while "
+                    "subscriptions start, are released or drained."),
+    ),
+    "C05": dict(
+        level_text=(" Added dimensions: names with common string prefixes or '/', sibling paths in one request, bulk notifications up to 520 sibling leaves (results of more than 256 "
+                    "leaves for one path), back-dated and glob deletes, writers parked inside the change-feed callback."),
+    ),
+    "C07": dict(
+        level_text=(" Added dimensions: quiet periods (virtual sleeps of 1-61 s against send timeouts of 10 s/30 s/1 min) after responses for denied targets were filtered - a subscriber "
+                    "whose sends never block must not time out -, bulk notifications, rich names, writers parked inside the change-feed callback."),
+    ),
+    "C08": dict(
+        level_text=(" Added dimensions: access-control tables in a quarter of the scenarios (filtered responses followed by quiet periods), big rounds in which a backlog of 20-130 "
+                    "distinct leaves builds up behind a subscriber without credit, part of it is taken, further distinct leaves arrive and everything drains; bulk and back-dated writer notifications."),
+    ),
+    "C14": dict(
+        technique="; a Remove raced against re-Add+update of the same name, and Resets parked inside the change-feed callback while subscribers attach",
+        level_text=(" Added (subscribers part): step rmadd - Remove(T) is parked inside the harness-owned feed callback of its whole-target delete before the announcement is forwarded, "
+                    "Add(T)+update(T) is started on another goroutine while it is parked (it can proceed only if Remove does not hold the cache lock across the announcement), the "
+                    "processor is yielded 500 times and the remover released; writer steps of kind Reset/notification parked inside the feed callback after the k-th entry while "
+                    "subscriptions start. Convergence of every running subscriber with the cache is judged at the following quiescent points."),
+        level_note="; the yields of the rmadd step only decide which interleaving is exercised, never a verdict",
+    ),
+    "C15": dict(
+        level_text=(" The race part draws, for half of the rounds with latency windows, a fast clock (cache.Now/latency.Now advance 53 ms per reading) so that the 2 s/4 s windows become "
+                    "covered and slide while Reset and the periodic refresh overlap; at the quiescent end exported min<=avg<=max and the bounds [-1h, time covered] are checked."),
+    ),
+    "C09": dict(
+        level_text=(" Part rich: element strings on both sides of '/' in byte order, empty, non-ASCII, one a string prefix of its sibling (WalkSorted order is element-wise), and stored "
+                    "values of every kind incl. kinds Go cannot compare with == (slices, maps, structs holding slices) and -0.0 over 0.0."),
+        rule=" rich: cases are 2-30 add/delete ops; non-trivial = an Add at an existing leaf with an uncomparable value of the same type, or an element that is a string prefix of a sibling with deeper leaves",
+    ),
+    "C11": dict(
+        technique="; long single-goroutine histories with large backlogs; free-running producers/consumer on the real scheduler inside a bubble",
+        level_text=(" Part large: phases of 1-130 inserts over 40-1000 distinct items followed by 0-200 deliveries (backlogs past 16/32/64/128), compared call by call with the model. "
+                    "Part stress: 1-4 producers x 1-64 inserts against one consumer on the real scheduler for 300-1000 rounds per case; at bubble quiescence the consumer must have drained "
+                    "the queue (a consumer blocked in Next with Len()>0 is a lost wake-up), accepted==delivered, coalesced==sum of duplicate counts, Close ends the consumer."),
+        rule=" large: non-trivial = an insert with more than 17 of 32+ appended slots pending and one full drain; stress: non-trivial = 2+ inserts per producer",
+    ),
+    "C06": dict(
+        technique=("; registrations removed/added while Update/UpdateNotification calls are in flight (calls paused inside a harness-owned callback, plus free-running rounds on the real "
+                   "scheduler), judged by schedule-independent sequence-stamp oracles"),
+        level_text=(" The random and server generators draw, in half of the scenarios, index strings that contain a joiner ('/', ':', '[', ']', '=', ',', ' ', NUL), are empty or equal two "
+                    "alphabet members joined by one, in element names, key values, origins and targets; derive paths from paths already in the scenario (same path again, element boundary "
+                    "moved across a joiner, longer, shorter, globbed; prefix/path re-split); probe every path of a list with a single-entry notification; lists of 20-100 paths with repeats, "
+                    "notifications of 5-40 entries, paths up to 10 elements, up to 12 clients at one path. In-flight part: 1-12 registrations by up to 6 clients, 1-3 rounds of 1-4 concurrent "
+                    "calls (paused inside their k-th callback, or repeated freely) against 1-3 mutator goroutines removing/adding/re-adding registrations; never-after, must-call and at-most "
+                    "oracles from one atomic stamp counter; audit updates at quiescence."),
+        level_note="; the in-flight part waits 100-600 us of real time for the mutators before it releases paused calls: that wait decides only whether the window is hit, never a verdict",
+        rule=(" inflight: cases are (registrations, rounds); non-trivial = while a call was paused inside a callback, remove() was requested for a compatible registration whose client the "
+              "call had not invoked yet"),
+    ),
+    "C16": dict(
+        technique="; the stepwise model at sizes beyond 32/64/128; free-running storms in virtual time; real-scheduler convoys in front of the Manager's lock",
+        level_text=(" Part wide: the exact stepwise model with 4-260 addresses and up to 300 threads (many dials pending / requesters blocked at once). Part storm: 1-300 requesters over 1-375 "
+                    "addresses free-running in one bubble with slow scripted dials, cancellation at every phase, 1-4 concurrent calls of the same done func, nested re-acquire, probes; "
+                    "every requester returns (bubble quiescence), at most one dial per address in flight, outcomes belong to the requester's own address, a held connection is never SHUTDOWN, "
+                    "everything is SHUTDOWN after the last release. Part convoy (real scheduler): generated sets of calls (the same done func from 1-8 goroutines, releases, requests) piled up "
+                    "while the Manager's lock is kept busy by a gated resolver Close; verdict from the data after joining. Stress part: concurrent double release through a spin barrier."),
+        level_note=("; the stepwise parts assume that a request for an address with neither a connection nor a pending dial enters the dial function before it blocks on anything else "
+                    "(a cross-address dial throttle would be reported as no-fresh-dial); the storm part does not assume it"),
+    ),
+    "C17": dict(
+        technique="; rich configurations reloaded many times in different representations of the same content",
+        level_text=(" Part reload: configurations with every field of target.proto, 0-6 keys per path element, several entries in every map field, 0-300 targets, 1-80 requests, unusual "
+                    "names, reloaded 5-50 times per step in 11 representations of the same content (map insertion order, nil/empty, wire/text/JSON round trips, clones, shared sub-messages) "
+                    "with 62 kinds of single-field/bulk edits, stale and invalid loads between; the handler calls of one load must equal the plain-data difference (an identical reload runs "
+                    "no handler)."),
+        rule=" reload: non-trivial by the same rule; a replay repeats the scenario up to 40 times (map iteration order cannot be pinned)",
+    ),
+    "C18": dict(
+        technique="; client-lifetime sequences (Subscribe/Close/Poll/cancel repeated on one client object); a family of 23 error-value kinds at every failing site",
+        level_text=(" Added: every failing step of the scripted transport returns one of 23 kinds of error value (plain, wrapped, empty text, typed nil, errlist with 0-3 errors, errors.Join, "
+                    "context.Canceled/DeadlineExceeded look-alikes, io.EOF variants, status codes, ErrClientInit); a second registered client type that fails at once (getFirst with two types). "
+                    "Part lifetime: 1-10 steps on one client object (Subscribe with its own possibly cancelled context, cancel, Close, Poll, final Close): termination per Subscribe and per "
+                    "Close, no attempt after a Close of a reconnecting client returned, callback discipline per call, ErrClientInit before the first Subscribe."),
+        level_note="; two Subscribe calls running at once on one client object are not generated (undocumented use; the unchanged client does not terminate the earlier call there)",
+        rule=" lifetime: non-trivial = 2+ Subscribe calls on one client object",
+    ),
+    "C19": dict(
+        technique="; free-running differential part for the pure conversions (concurrent result == result when run alone), optionally under -race; a large-shapes part",
+        level_text=(" Part concurrent: 2-16 goroutines convert pools of shared and private paths/queries/values (multi-key elements with 2-8 keys dominate) for 300-1000 rounds per case; every "
+                    "concurrent result must equal the result of the same call run alone and inputs must be unmodified; under -race, reports with a gnmi frame are violations. Part large: the five "
+                    "sequential oracles on elements with 5-10 keys, 50-300 elements, 1-8 KiB strings with '/', '[', ']', '=', '\\', U+FFFD, long leaf-lists."),
+        rule=" concurrent: non-trivial = conversions of multi-key paths in flight on 2+ goroutines",
+    ),
+    "C20": dict(
+        technique="; a second generator for size and shape of the configuration; streams also observed at UpdateQueue.Latest/Add and through a real fake Agent over gRPC on loopback",
+        level_text=(" Part shapes: configurations of 1-300 values (sizes sampled around 16, 32, 64, 128, 256) in eight layouts on the time axis, 1-6 cadences, repeats up to 40, option lists up "
+                    "to 24 entries; Latest() read after New/Add/Next; 28% of the cases also build the generator by New(first k)+Add(rest), 15% are also served by a real Agent."),
+        level_note="; the Agent observation uses real sockets: a 2-minute patience or a transport error labels the case inconclusive, never a verdict",
+    ),
+}
+for _pid, _ex in EXT.items():
+    for _k in ("technique", "level_text", "level_note", "rule"):
+        if _k in _ex:
+            CHECKS[_pid][_k] = CHECKS[_pid][_k] + _ex[_k]
 
 
 NOT_APPLICABLE = [
